@@ -50,6 +50,9 @@ package errors
 //@   trusted
 //@   pure
 //@   ensures result > 0
+// ... which is proved for every implementation: each type of the repository that implements TaskError has its Code
+// method verified against the clauses above (an error class added later is covered from its first day)
+//@ impl_methods (TaskError).Code                                                                             [C03,C13]
 
 // ---- the documented exit codes -------------------------------------------------------------------------------
 // Each error class ends the invocation with ITS status (the documented table covers 100-107 and 200-207; 108-110 are as
